@@ -696,6 +696,19 @@ class Facts:
             self.out[e['from']].append(e)
         self.roots = j['roots']
         self.adts = {norm(a['path']): a for a in j['adts']}
+        # (enum path, variant name) -> discriminant, for the path explorer (kvlib.paths.explore)
+        self.adt_discr = {}
+        for a in j['adts']:
+            if a.get('kind') == 'Enum':
+                for v in a['variants']:
+                    try:
+                        dv = int(v.get('discr'))
+                    except (TypeError, ValueError):
+                        continue
+                    self.adt_discr[(a['path'], v['name'])] = dv
+                    self.adt_discr[(norm(a['path']), v['name'])] = dv
+        for b in self.all_bodies:
+            b.adt_discr = self.adt_discr
         self.impls = j['impls']
         for im in self.impls:
             im['trait'] = norm(im['trait'])
@@ -752,6 +765,7 @@ class Facts:
             if not changed:
                 break
         v = Body(c, b0.idx)
+        v.adt_discr = self.adt_discr
         cache[key] = v
         return v
 
